@@ -1,7 +1,7 @@
 /* C17 harness: server-side scaling on the real server code (scale.c, rfbserver.c, main.c).
  *
  * ops (one observation line per op; Driver/C17.lean answers the same script):
- *   screen W H F            F: 8m (colour-mapped 8 bpp) | 8 | 16 | 32         -> ok
+ *   screen W H F            F: 8m (colour-mapped 8 bpp) | 8 | 16 | 24 | 32   -> ok
  *   client I NFS            connect+handshake, SetEncodings [Raw (+NewFBSize if NFS=1)]  -> ok
  *   scale I V N             V: u (rfbSetScale, type 8) | p (PalmVNC, type 0xF), N 0..255
  *                           -> told I u W H | told I p DW DH BW BH | told I none | closed I
@@ -9,6 +9,8 @@
  *   cl I                    -> cl I WxH            (the client's scaledScreen; "self" flag if == screen)
  *   draw X Y W H SEED       pseudo-random pixels into the rectangle, then rfbMarkRectAsModified -> ok
  *   mark X1 Y1 X2 Y2        rfbMarkRectAsModified only                                        -> ok
+ *   copy X Y W H DX DY      rfbDoCopyRect: the rectangle (inside the screen, as is its source) becomes a
+ *                           copy of the pixels at (-DX,-DY) from it                          -> ok
  *   req I INC X Y W H       FramebufferUpdateRequest (client = scaled coordinates), pump, decode
  *                           -> upd I [nfs=WxH] K ux,uy,uw,uh>x,y,w,h ...  (hook rect > wire rect)
  *   reqq I INC X Y W H      same, rectangles not printed                   -> updq I [nfs=WxH]
@@ -25,6 +27,8 @@
  *   ptrflush                advance the virtual clock past the defer time, run the event loop
  *                           -> ptrflush K id:m,x,y ...
  *   leave I                 close the connection, reap -> ok
+ *   scalecut I V            send only the first 2 bytes of a SetScale message (variant V), then close:
+ *                           the read-error arm of the handler; the client is reaped -> ok
  *   corr FW FH TW TH X Y W H   rfbScaledCorrection(from FWxFH, to TWxTH)      -> corr x y w h
  *   sx FW TW X / sy FH TH Y    ScaleX / ScaleY                                -> sx r
  *   relx LIM                exhaustive: ScaleX(x,fw,tw) == x*tw/fw for all 1<=fw,tw<=LIM, 0<=x<=LIM
@@ -113,11 +117,12 @@ static uint32_t getpix(const char *fb, int stride, int x, int y) {
   const unsigned char *p = (const unsigned char *)fb + (size_t)y * stride + (size_t)x * BPP;
   if (BPP == 1) return p[0];
   if (BPP == 2) return p[0] | (p[1] << 8);
+  if (BPP == 3) return p[0] | (p[1] << 8) | (p[2] << 16);
   return p[0] | (p[1] << 8) | (p[2] << 16) | ((uint32_t)p[3] << 24);
 }
 static void putpix(char *fb, int stride, int x, int y, uint32_t v) {
   unsigned char *p = (unsigned char *)fb + (size_t)y * stride + (size_t)x * BPP;
-  p[0] = v & 255; if (BPP >= 2) p[1] = (v >> 8) & 255; if (BPP == 4) { p[2] = (v >> 16) & 255; p[3] = (v >> 24) & 255; }
+  p[0] = v & 255; if (BPP >= 2) p[1] = (v >> 8) & 255; if (BPP >= 3) p[2] = (v >> 16) & 255; if (BPP == 4) p[3] = (v >> 24) & 255;
 }
 static uint64_t fnv_add(uint64_t h, uint32_t v, int nbytes) {
   int i; for (i = 0; i < nbytes; i++) { h ^= (v >> (8 * i)) & 255; h *= 1099511628211ull; } return h;
@@ -180,7 +185,7 @@ static int parse(hcl *h) {
         } else {
           unsigned yy, xx; const unsigned char *q = p + off;
           for (yy = 0; yy < ht; yy++) for (xx = 0; xx < w; xx++) {
-            uint32_t v = q[0]; if (BPP >= 2) v |= q[1] << 8; if (BPP == 4) v |= (q[2] << 16) | ((uint32_t)q[3] << 24);
+            uint32_t v = q[0]; if (BPP >= 2) v |= q[1] << 8; if (BPP >= 3) v |= q[2] << 16; if (BPP == 4) v |= (uint32_t)q[3] << 24;
             h->pic[(size_t)(y + yy) * h->pw + x + xx] = v; q += BPP;
           }
         }
@@ -244,7 +249,7 @@ int main(void) {
       SW = atoi(tok[1]); SH = atoi(tok[2]);
       MAPPED = !strcmp(tok[3], "8m");
       BPP = MAPPED ? 1 : atoi(tok[3]) / 8;
-      if (SW < 1 || SH < 1 || SW > 4096 || SH > 4096 || (BPP != 1 && BPP != 2 && BPP != 4)) { puts("bad-op"); continue; }
+      if (SW < 1 || SH < 1 || SW > 4096 || SH > 4096 || (BPP < 1 || BPP > 4)) { puts("bad-op"); continue; }
       scr = vh_screen(SW, SH, BPP);
       if (!scr) { puts("bad-op"); continue; }
       scr->cursor = NULL;
@@ -301,12 +306,18 @@ int main(void) {
              cls[i].c.cl->scaledScreen == scr ? " self" : "");
     } else if (!strcmp(tok[0], "draw") && n == 6) {
       int x = atoi(tok[1]), y = atoi(tok[2]), w = atoi(tok[3]), ht = atoi(tok[4]), xx, yy;
-      uint32_t mask = BPP == 4 ? 0xFFFFFFFFu : BPP == 2 ? 0xFFFFu : 0xFFu;
+      uint32_t mask = BPP == 4 ? 0xFFFFFFFFu : BPP == 3 ? 0xFFFFFFu : BPP == 2 ? 0xFFFFu : 0xFFu;
       if (x < 0 || y < 0 || w < 1 || ht < 1 || x + w > SW || y + ht > SH) { puts("bad-op"); continue; }
       vh_srand((uint64_t)strtoull(tok[5], NULL, 10));
       for (yy = y; yy < y + ht; yy++) for (xx = x; xx < x + w; xx++)
         putpix(scr->frameBuffer, scr->paddedWidthInBytes, xx, yy, (uint32_t)(vh_rand() >> 16) & mask);
       rfbMarkRectAsModified(scr, x, y, x + w, y + ht);
+      puts("ok");
+    } else if (!strcmp(tok[0], "copy") && n == 7) {
+      int x = atoi(tok[1]), y = atoi(tok[2]), w = atoi(tok[3]), ht = atoi(tok[4]), dx = atoi(tok[5]), dy = atoi(tok[6]);
+      if (x < 0 || y < 0 || w < 1 || ht < 1 || x + w > SW || y + ht > SH ||
+          x - dx < 0 || y - dy < 0 || x - dx + w > SW || y - dy + ht > SH) { puts("bad-op"); continue; }
+      rfbDoCopyRect(scr, x, y, x + w, y + ht, dx, dy);
       puts("ok");
     } else if (!strcmp(tok[0], "mark") && n == 5) {
       rfbMarkRectAsModified(scr, atoi(tok[1]), atoi(tok[2]), atoi(tok[3]), atoi(tok[4]));
@@ -375,6 +386,17 @@ int main(void) {
       timer_flush();
       printf("ptrflush");
       print_pe_sorted();
+    } else if (!strcmp(tok[0], "scalecut") && n == 3) {
+      int i = atoi(tok[1]); unsigned char m[2];
+      if (!is_live(i)) { puts("bad-op"); continue; }
+      m[0] = tok[2][0] == 'p' ? 0xF : 8; m[1] = 2;
+      vh_send(&cls[i].c, m, 2);
+      close(cls[i].c.peer); cls[i].c.peer = -1;
+      if (cls[i].c.cl) rfbProcessClientMessage(cls[i].c.cl);
+      rfbProcessEvents(scr, 0);
+      cls[i].live = 0;
+      pump_all();
+      puts("ok");
     } else if (!strcmp(tok[0], "leave") && n == 2) {
       int i = atoi(tok[1]);
       if (!is_live(i)) { puts("bad-op"); continue; }
